@@ -21,6 +21,8 @@ CLAIMED["C15"] = ("other", "Provenance of every cut offset in SplitStatements wi
          "value-provenance rule with path facts (AST abstract interpreter)")
 CLAIMED["C10"] = ("other", "Completeness of all per-node Span() unions against the struct definitions, provenance class of every recorded span (token span / nullSpan / union of token bounds / copy), error-position safety and the shape of every source slice by span. Exactness of each position on every input is a runtime quantity and is not decided.", "DESIGN.md §3 C10",
          "exhaustiveness check over go/types struct fields + syntactic provenance classes of span values")
+CLAIMED["C07"] = ("other", "Precedence table order, precedence-climbing guards as path facts at the BinaryExpr construction and the recursive call, sign operand production, keyword/synonym table of the tabular operators, sort-term defaults and their rendering. The tree for every derivation and layout independence quantify over inputs and are not decided.", "DESIGN.md §3 C07",
+         "table extraction from switches + path facts (AST abstract interpreter) at construction sites")
 NA = {}
 def main():
     props = [json.loads(l) for l in open('/verif/properties.jsonl')]
